@@ -68,6 +68,25 @@ class TLCResult:
         return res
 
 
+class Crash(Exception):
+    """the code under test crashed the harness process (recorded as a candidate); the check cannot go on"""
+
+
+def crash_frame(out):
+    """name of the first repository function (not a harness file) on the stack of a panic / fatal error, or None"""
+    i = max(out.find("\npanic:"), out.find("\nfatal error:"))
+    if i < 0 and not (out.startswith("panic:") or out.startswith("fatal error:")):
+        return None
+    lines = out[max(i, 0):].splitlines()
+    for j, ln in enumerate(lines[:-1]):
+        if ln.startswith("connectrpc.com/conformance/") and "zz_verif" not in lines[j + 1] and "zz_verif" not in ln \
+                and "/verifutil" not in ln and "testing.tRunner" not in ln:
+            return re.sub(r"\((0x[0-9a-f]+|\.\.\.|[, ?{}\[\]])*\)$", "", ln.strip())
+        if ln.startswith("goroutine ") and j > 3 and "[running]" not in ln:
+            break   # only the crashing goroutine counts
+    return None
+
+
 class Ctx:
     def __init__(self, pid, tier, seed, replay=None):
         self.pid = pid
@@ -142,7 +161,7 @@ class Ctx:
             raise Machinery("go build failed for %s:\n%s" % (pkg, p.stdout[-4000:]))
         return out
 
-    def run_harness(self, binary, test, env=None, timeout=1800, args=(), cwd=None, check=True):
+    def run_harness(self, binary, test, env=None, timeout=1800, args=(), cwd=None, check=True, _again=False):
         """Run one Test function of a harness binary. Communication is by files named in env."""
         cmd = [binary, "-test.run", "^" + test + "$", "-test.count=1", "-test.timeout", "%ds" % (timeout + 60)]
         cmd += list(args)
@@ -157,8 +176,37 @@ class Ctx:
             raise Machinery("harness %s timed out after %ds" % (test, timeout))
         self.log("harness %s: rc=%d in %.1fs" % (test, p.returncode, time.time() - t))
         if check and p.returncode != 0:
+            # The harness process died.  If it died of an unrecovered panic / fatal error raised in a goroutine of
+            # the code under test (a frame of the repository, not of a harness file), that is the code crashing its
+            # process - a verdict, once it happens again on a second execution; anything else is a machinery problem.
+            fr = crash_frame(p.stdout)
+            if fr and not _again:
+                p2 = None
+                try:
+                    p2 = self.run_harness(binary, test, env=env, timeout=timeout, args=args, cwd=cwd, check=False, _again=True)
+                except Machinery:
+                    pass
+                fr2 = crash_frame(p2.stdout) if p2 is not None and p2.returncode != 0 else None
+                if fr2 == fr:
+                    i = max(p.stdout.find("panic:"), p.stdout.find("fatal error:"))
+                    self.candidate(dict(kind="crash", test=test, frame=fr),
+                                   "the code under test crashed the process running %s (unrecovered panic in %s, twice):\n%s" % (
+                                       test, fr, p.stdout[i:i + 2500]), dict(kind="crash", test=test, frame=fr, output=p.stdout[i:i + 4000]))
+                    raise Crash("harness %s: process crashed in %s" % (test, fr))
             raise Machinery("harness %s failed rc=%d:\n%s" % (test, p.returncode, p.stdout[-6000:]))
         return p
+
+    def harness_died(self, p, what):
+        """for callers that run a harness with check=False: the process ended abnormally.  A panic / fatal error on a
+        stack of the code under test is the code crashing its process (candidate, then Crash); else Machinery."""
+        fr = crash_frame(p.stdout)
+        if fr:
+            i = max(p.stdout.find("panic:"), p.stdout.find("fatal error:"))
+            self.candidate(dict(kind="crash", test=what, frame=fr),
+                           "the code under test crashed the process running %s (unrecovered panic in %s):\n%s" % (what, fr, p.stdout[i:i + 2500]),
+                           dict(kind="crash", test=what, frame=fr, output=p.stdout[i:i + 4000]))
+            raise Crash("%s: process crashed in %s" % (what, fr))
+        raise Machinery("%s failed rc=%d\n%s" % (what, p.returncode, p.stdout[-3000:]))
 
     # ---------------------------------------------------------------- TLC side
     def tlc(self, module, cfg=None, workers=None, timeout=900, env=None, simulate=None, depth=None,
